@@ -45,7 +45,7 @@ fn rand_literal(rng: &mut Rng, iris: &[&str], tags: &[&str]) -> ST {
     match rng.below(3) {
         0 => lit_lang(&rand_lex(rng), *rng.pick(tags)),
         1 => lit_dt(&rand_lex(rng), &format!("{XSD}string")),
-        _ => lit_dt(&rand_lex(rng), *rng.pick(iris)),
+        _ => if rng.chance(1, 3) { lit_dt(&rand_lex(rng), *rng.pick(&crate::rt::DATATYPES)) } else { lit_dt(&rand_lex(rng), *rng.pick(iris)) },
     }
 }
 fn rand_subject(rng: &mut Rng, mode: Mode, depth: usize, iris: &[&str], labels: &[&str], tags: &[&str]) -> ST {
